@@ -992,6 +992,7 @@ class list_t(object):
         
     def clear(self):
         self.get_model().clear()
+        self.backing_arr.clear()
 
     def __contains__(self, lhs):
         if get_expr_mode():
